@@ -661,6 +661,8 @@ def run_shard(spec, rec):
             check_limits(rec, limit_params(spec["seed"], spec["shard"], i))
         if i % 6 == 3:
             check_highsnr(rec, highsnr_params(spec["seed"], spec["shard"], i))
+        if i % 40 == 7:
+            check_lookalike(rec, spec["seed"] * 100003 + spec["shard"] * 1009 + i)
 
 
 def check_highsnr(rec, g):
@@ -712,6 +714,58 @@ def check_highsnr(rec, g):
         rec.nontriv(["highsnr", g["k"], n > m, int(np.log10(g["snr"]))], g["s"])
 
 
+def check_lookalike(rec, seed):
+    """Two retrievals in sequence whose large covariance matrices agree in their first and last channels
+    and differ in between (m >= 32: the printed form of such arrays is abbreviated), then the same four
+    problems of one shape asked from four threads at once."""
+    from typhon.retrieval.oem import common, error
+    from vt.monitors import concurrency
+    rng = np.random.default_rng(seed)
+    m, n = int(rng.integers(32, 41)), int(rng.integers(2, 9))
+    K = rng.normal(size=(m, n))
+    S_a = np.eye(n) * float(10 ** rng.uniform(-1, 1))
+    base = 10 ** rng.uniform(-1, 0.5, m)
+    variants = []
+    for k in range(4):
+        d = base.copy()
+        d[3:-3] *= (1.0, 4.0, 0.25, 9.0)[k]
+        Sy = np.diag(d)
+        if k % 2:                      # correlated in the interior only
+            Sy[10, 11] = Sy[11, 10] = 0.3 * np.sqrt(d[10] * d[11])
+        variants.append(Sy)
+    case = {"sub": "lookalike", "seed": int(seed)}
+    rec.ev()
+    rec.count("lookalike.cases")
+    _installed["off"] = True
+    try:
+        for k, Sy in enumerate(variants):
+            ref = M.Reference(K, S_a, Sy)
+            tol = C * max(n, m) * EPS * ref.kappa_S
+            for name, fn, want, scale in (
+                    ("error_covariance_matrix", common.error_covariance_matrix, ref.S_n, ref.nS),
+                    ("retrieval_gain_matrix", common.retrieval_gain_matrix, ref.G_m, ref.scale_G),
+                    ("averaging_kernel_matrix", common.averaging_kernel_matrix, ref.A_gk, ref.scale_A)):
+                ok, got = call(rec, case, name, fn, K, S_a, Sy)
+                if ok and not (np.shape(got) == want.shape and M.fro(M.ld(got) - want) <= tol * scale):
+                    rec.violation("S-defn" if name.startswith("error") else "G-mform" if "gain" in name
+                                  else "A-defn", dict(case, variant=k),
+                                  {"why": "covariances that agree in their first and last three channels, "
+                                          "evaluated one after the other", "function": name,
+                                   "err_F": float(M.fro(M.ld(got) - want)), "tol": float(tol * scale)})
+                    return
+        e_y = rng.normal(size=m)
+        calls = [(error.retrieval_noise, (K, S_a, Sy, e_y), {}) for Sy in variants] + \
+                [(common.averaging_kernel_matrix, (K, S_a, Sy), {}) for Sy in variants]
+        verdict, detail = concurrency.concurrent_check(calls, threads=4, rounds=2)
+        rec.count("lookalike.concurrent_" + verdict.replace("/", ""))
+        if verdict == "race":
+            rec.violation("stale-state", dict(case, concurrent=True),
+                          dict(detail, why="same-shape problems asked from 4 threads at once"))
+    finally:
+        _installed["off"] = False
+    rec.nontriv(["lookalike", m, n], int(seed))
+
+
 def highsnr_params(seed, shard, i):
     rng = np_rng_for(seed, "c17-highsnr", shard, i)
     n = int(rng.integers(2, 31))
@@ -727,6 +781,8 @@ def replay(case, rec):
         check_limits(rec, case["g"])
     elif case.get("sub") == "highsnr":
         check_highsnr(rec, case["g"])
+    elif case.get("sub") == "lookalike":
+        check_lookalike(rec, case["seed"])
     else:
         if not check_triple(rec, case["g"], shrink=False):
             rec.inconc("replayed triple is outside the kappa budget")
